@@ -51,6 +51,10 @@ var readSiteTracked = map[string]readSiteSpec{
 	"resolveComponent":         {2, 1},
 	"resolvePathWithRef":       {1, 0},
 	"allowsExternalRefs":       {0, 0},
+	// the entry points: how the root location is built before it reaches loadFromURIInternal / ResolveRefsIn
+	"LoadFromURI":                  {0, 0},
+	"loadFromDataWithPathInternal": {1, 0},
+	"ResolveRefsIn":                {1, 0},
 }
 
 var readSitePrimitives = map[string]bool{"os.ReadFile": true, "os.Open": true, "os.OpenFile": true, "ioutil.ReadFile": true, "http.Get": true, "http.Post": true}
